@@ -58,3 +58,12 @@ Theorem C07_daub_kernel_lengths : forall tbl,
   length (snd (daub_synthesis tbl)) = length (daub_low tbl) /\ length (daub_low tbl) = length tbl.
 Proof. exact daub_lengths. Qed.
 Print Assumptions C07_daub_kernel_lengths.
+
+(* ---- the generic (float / integer) model of the bit-exact stream, instantiated at the rationals, is the model above ---- *)
+From Signalo Require Base.Arith Model.Generic Proofs.Generic.
+Theorem C07_generic_analyze : forall n low high s x, Signalo.Model.Generic.g_ana_step Signalo.Base.Arith.Qar n low high s x = Signalo.Model.Wavelet.ana_step n low high s x.
+Proof. exact Signalo.Proofs.Generic.gq_ana. Qed.
+Print Assumptions C07_generic_analyze.
+Theorem C07_generic_synthesize : forall n low high s lh, Signalo.Model.Generic.g_syn_step Signalo.Base.Arith.Qar n low high s lh = Signalo.Model.Wavelet.syn_step n low high s lh.
+Proof. exact Signalo.Proofs.Generic.gq_syn. Qed.
+Print Assumptions C07_generic_synthesize.
